@@ -4,6 +4,7 @@ package gen
 
 import (
 	"fmt"
+	"strings"
 
 	"pgregory.net/rapid"
 
@@ -370,4 +371,38 @@ func Debug(t *rapid.T, label string) bool {
 // names for its users; no listed property lets them influence a request, a route or a result.
 func Doors(t *rapid.T, label string) []string {
 	return rapid.SampledFrom([][]string{nil, nil, {}, {"D1"}, {"D1", "D2"}, {"D1", "D2", "D3"}, {"Front", "Back", "Garage", "Attic"}, {"D1", "D2", "D3", "D4", "D5"}, {"", "", "", ""}}).Draw(t, label)
+}
+
+// Name draws a configured controller name: empty, plain, blank-padded, long, and names in other scripts of every length
+// (so that the length in bytes and the length in characters differ by every factor up to four), with combining marks,
+// characters outside the BMP, control characters and bytes that are not UTF-8.
+func Name(t *rapid.T, label string) string {
+	switch rapid.IntRange(0, 9).Draw(t, label+".kind") {
+	case 0:
+		return ""
+	case 1, 2:
+		return rapid.SampledFrom([]string{"Alpha", "A", "  spaced   name ", "ünï côde", "tab\tname", "line\nbreak", "q\"uote", "nul\x00byte", "\xff\xfe not utf-8", "   "}).Draw(t, label)
+	case 3:
+		return strings.Repeat(rapid.SampledFrom([]string{"x", "Main entrance ", "ab "}).Draw(t, label+".unit"), rapid.IntRange(1, 80).Draw(t, label+".n"))
+	default:
+		unit := []rune(rapid.SampledFrom([]string{"Контроллер главного входа ", "Είσοδος προσωπικού ", "正面玄関コントローラー", "دروازه اصلی ", "é", "e\u0301", "😀", "𝔘𝔫𝔦", "प्रवेश द्वार ", "a\u200bb"}).Draw(t, label+".script"))
+		n := rapid.IntRange(1, 90).Draw(t, label+".runes")
+		out := make([]rune, 0, n)
+		for len(out) < n {
+			out = append(out, unit...)
+		}
+		return string(out[:n])
+	}
+}
+
+// ProcessZone draws the zone of the process for checks that render or compare values: mostly UTC (""), else a zone
+// from the tz database, the synthetic one, or a fixed zone with an odd abbreviation (zones.Odd).
+func ProcessZone(t *rapid.T, label string) string {
+	switch rapid.IntRange(0, 5).Draw(t, label+".kind") {
+	case 0:
+		return rapid.SampledFrom(zones.Odd()).Draw(t, label+".odd")
+	case 1:
+		return rapid.SampledFrom(append(zones.Spread(24), zones.Synthetic)).Draw(t, label+".iana")
+	}
+	return ""
 }
